@@ -81,7 +81,7 @@ package ecs
 //@   trusted
 //@   requires table != nil
 //@   ensures  freed: table.isFree
-//@   ensures  others: forall t2 *table :: t2 != table ==> t2.isFree == old(t2.isFree)
+//@   ensures  others: forall t2 *__T_table :: t2 != table ==> t2.isFree == old(t2.isFree)
 
 //@ func (*storage).Shrink
 //@   serves C15
